@@ -76,13 +76,17 @@ def jsonable(c):
     return {k: (sorted(v) if isinstance(v, set) else v) for k, v in c.items()}
 
 
-def spec_key(what):
-    """The exhaustive TLC runs depend only on the specification files and their constants (never on /repo, the
+MC_FILES = ["Versions.tla", "Handshake.tla", "HandshakeActions.tla", "MC_Handshake.tla"]
+CASES_FILES = ["Versions.tla", "Cases_Versions.tla"]
+
+
+def spec_key(files, what):
+    """The exhaustive TLC runs depend only on these specification files and their constants (never on /repo, the
     seed or the harness): their results are reused while those are unchanged (marked `reused` in the evidence)."""
     h = hashlib.sha256()
-    for f in sorted(glob.glob(os.path.join(SPEC_DIR, "*.tla"))):
-        h.update(os.path.basename(f).encode())
-        with open(f, "rb") as fh:
+    for name in files:
+        h.update(name.encode())
+        with open(os.path.join(SPEC_DIR, name), "rb") as fh:
             h.update(hashlib.sha256(fh.read()).digest())
     h.update(json.dumps(what, sort_keys=True, default=sorted).encode())
     return h.hexdigest()[:24]
@@ -94,7 +98,7 @@ def run_mc(tier, result, errors):
         cfgs = mc_configs(tier)
 
         def one(name):
-            key = spec_key(["mc", name, jsonable(cfgs[name]), MC_PROPS, MC_WITNESS[name]])
+            key = spec_key(MC_FILES, ["mc", name, jsonable(cfgs[name]), MC_PROPS, MC_WITNESS[name]])
             hit = vk.cache_get(FAMILY + "_mc", key)
             if hit is not None:
                 hit["reused"] = True
@@ -124,7 +128,7 @@ def run_mc(tier, result, errors):
 def gen_version_cases(tier, workdir):
     """TLC enumerates the inputs of the version functions (and checks the transcription against its own contract).
     The enumeration depends only on the specification: it is kept while the spec files are unchanged."""
-    key = spec_key(["cases", tier])
+    key = spec_key(CASES_FILES, ["cases", tier])
     keep = os.path.join(vk.CACHE, "results", FAMILY + "_cases")
     os.makedirs(keep, exist_ok=True)
     kept = os.path.join(keep, key + ".ndjson")
